@@ -147,6 +147,22 @@ Section Sem.
       | [] => glob
       end.
 
+  (* the instrumented read evaluates the name inside `lambda: x` (_read_(iid, lambda: x)): a function local that is
+     not bound yet is a free variable of that lambda, and CPython reports the failure as a NameError ("cannot
+     access free variable ..."), not as the UnboundLocalError of the original program *)
+  Definition lookup_thunk (x : string) : M val :=
+    fun s =>
+      match frames s with
+      | fr :: _ =>
+        if mem_str x (lnames fr) then
+          match alookup x (locals fr) with
+          | Some v => (Ok v, s)
+          | None => raise_builtin "NameError:free" x s
+          end
+        else lookup x s
+      | [] => lookup x s
+      end.
+
   Definition assign (x : string) (v : val) : M unit :=
     fun s =>
       match frames s with
@@ -520,7 +536,7 @@ Section Sem.
       | ETuple _ es => do vs <- evl_ es; prim_total (p_mktuple vs)
       (* ---- runtime calls *)
       | RLit k n a => do v <- EV a; rt_lit k n v
-      | RRead n x _ => rt_read n (lookup x)
+      | RRead n x _ => rt_read n (lookup_thunk x)
       | RUnOp n code a => do v <- EV a; rt_unary n code v
       | RBinOp n code a b => rt_binary n code (EV a) (EV b)
       | RCmpOp n a r => do l <- EV a; do links <- evr_ r; rt_comp n l links
@@ -1255,6 +1271,20 @@ Section Sem.
       Variable calli : nat -> list val -> M val.
       Hypothesis Hcall : forall f a, meq (calli f a) (call f a).
 
+      (* the data semantics does not tell the NameError that a read through `lambda: x` raises for an unbound
+         function local from the UnboundLocalError of the direct read (KNOWN_FINDINGS: unbound_local_thunk;
+         CPython does tell them apart: Properties/C01.v, refuted_unbound_local_thunk) *)
+      Hypothesis unbound_same : forall x w0, p_exc "NameError:free" x w0 = p_exc "UnboundLocalError" x w0.
+
+      Lemma lookup_thunk_eq x : meq (lookup_thunk x) (lookup x).
+      Proof.
+        intros s. unfold lookup_thunk, lookup. destruct (frames s) as [|fr r]; [reflexivity|].
+        destruct (mem_str x (lnames fr)); [|reflexivity]. destruct (alookup x (locals fr)); [reflexivity|].
+        unfold raise_builtin, bind, prim_total. rewrite unbound_same. reflexivity.
+      Qed.
+      Lemma rt_read_thunk n x : meq (rt_read n (lookup_thunk x)) (rt_read n (lookup x)).
+      Proof. unfold rt_read. apply bind_cong; [reflexivity|intros _]. apply bind_cong; [apply lookup_thunk_eq|intros v; reflexivity]. Qed.
+
       Lemma set_w_same (s : st) : set_w s (w s) = s.
       Proof. destruct s; reflexivity. Qed.
 
@@ -1657,7 +1687,7 @@ Section Sem.
             [rewrite eval_unfold; reflexivity|].
           destruct (r_tgt c); cbn [negb orb andb]; [rewrite eval_unfold; reflexivity|].
           destruct (mem_str "read_identifier" H); destruct s; cbn [negb orb andb]; rewrite eval_unfold; cbn [eval_body]; try reflexivity.
-          unfold rt_read. rewrite announce_on_nocf. reflexivity.
+          rewrite rt_read_thunk. unfold rt_read. rewrite announce_on_nocf. reflexivity.
         - (* EUn *) intros n o e IH Hs Ho c. simpl in Hs, Ho. specialize (IH Hs Ho). rewrite reval_unfold. cbn [reval_body instr_e].
           change (sel_or_us H (snake (unop_cls o))) with (cov_us (snake (unop_cls o))).
           destruct (cov_us (snake (unop_cls o))) eqn:C; rewrite eval_unfold; cbn [eval_body].
@@ -3354,6 +3384,7 @@ Section Sem.
     Variable tr : val -> bool.
     Hypothesis truth_pure : forall v w0, p_truth v w0 = (POk (tr v), w0).
     Hypothesis tr_bool : forall b, tr (p_const (KBool b)) = b.
+    Hypothesis unbound_same : forall x w0, p_exc "NameError:free" x w0 = p_exc "UnboundLocalError" x w0.
 
     Definition fun_ok (fd : fundef) : bool := src_ss (f_body fd) && ok_ss H (f_body fd).
     Hypothesis funs_ok : forallb fun_ok funs = true.
@@ -3382,7 +3413,7 @@ Section Sem.
       pose (k := {| r_loop := None; r_fn := Some (f_nid fd, f_name fd) |}).
       assert (Hbody : meq (exec_list (run_fun (map (instr_fun H) funs) f) f (instr_ss H {| loop := None; fn := Some (f_nid fd, f_name fd) |} (f_body fd)))
                           (rexec_list H (rrun_fun funs H f) f k (f_body fd))).
-      { exact (proj1 (proj2 (refine_stmt H (rrun_fun funs H f) f tr truth_pure (run_fun (map (instr_fun H) funs) f) IH tr_bool)) (f_body fd) Hs Ho k). }
+      { exact (proj1 (proj2 (refine_stmt H (rrun_fun funs H f) f tr truth_pure (run_fun (map (instr_fun H) funs) f) IH unbound_same tr_bool)) (f_body fd) Hs Ho k). }
       set (ci := run_fun (map (instr_fun H) funs) f) in *.
       unfold instr_fun. cbn [f_body f_nid f_name f_params].
       change (sel H "function_enter" || sel H "implicit_return") with (cov H "function_enter" || cov H "implicit_return").
@@ -3407,7 +3438,7 @@ Section Sem.
       intros Hs Ho. unfold run_module, rrun_module. mstep.
       apply bind_cong; [apply catch_cong|intros r; reflexivity].
       exact (proj1 (proj2 (refine_stmt H (rrun_fun funs H fuel) fuel tr truth_pure (run_fun (map (instr_fun H) funs) fuel)
-                                       (refine_fun fuel) tr_bool)) main Hs Ho {| r_loop := None; r_fn := None |}).
+                                       (refine_fun fuel) unbound_same tr_bool)) main Hs Ho {| r_loop := None; r_fn := None |}).
     Qed.
   End RunRefinement.
 
